@@ -114,6 +114,7 @@ type subState struct {
 	cancel      context.CancelFunc
 	expired     bool          // ended by its own deadline, not by cancel
 	release     chan struct{} // closed by the "release" step / finish: a blocked handler continues
+	satThrough  int           // coalesced dials this (never cancelled) caller waited on that were abandoned by their dialler
 	released    bool
 	blockedNow  bool     // its handler is blocked right now (the read goroutine of its connection stands still)
 	handlerActs []string // scripted handler behaviours that actually ran
